@@ -70,7 +70,7 @@ def gen_case(r):
     c = {"trees": trees, "R": r.randint(1, 5), "kernel": r.choice(["flat", "harmonic", "geometric"]),
          "orientation": r.choice(["before", "after", "symmetric", "directional"]), "offset": r.choice([0, 0, 1, 2]),
          "normalize": r.random() < 0.2, "power": r.choice([0.9, 0.5]), "prune": r.choice([None, "min_occurrences", "ignored", "max_occurrences"]),
-         "mode": r.choice(["delete", "mask", "nullify"])}
+         "mode": r.choice(["delete", "mask", "nullify"]), "adj": r.choice(["csr", "csr", "lil", "csr-int", "lil-int"])}
     if c["prune"] == "min_occurrences":
         c["bound"] = r.choice(sorted(cnt.values()))
     elif c["prune"] == "max_occurrences":
@@ -80,11 +80,13 @@ def gen_case(r):
     return c
 
 
-def to_adj(par):
+def to_adj(par, fmt="csr"):
     n = len(par)
     rr = [p for p in par if p != -1]
     cc = [i for i, p in enumerate(par) if p != -1]
-    return sp.csr_matrix((np.ones(len(rr)), (rr, cc)), shape=(n, n))
+    dt = np.int64 if fmt.endswith("-int") else np.float64
+    A = sp.csr_matrix((np.ones(len(rr), dtype=dt), (rr, cc)), shape=(n, n))
+    return A.tolil() if fmt.startswith("lil") else A
 
 
 def _sig(c):
@@ -106,7 +108,9 @@ def check_case(ctx, c):
     import vectorizers as V
 
     trees = [(t["par"], t["labels"]) for t in c["trees"]]
-    X = [(to_adj(p), np.array(l)) for p, l in trees]
+    fmt = c.get("adj", "csr")
+    X = [(to_adj(p, fmt), np.array(l)) for p, l in trees]
+    X0 = [A.toarray().copy() for A, _ in X]
     kargs = {}
     if c["offset"] or c["normalize"]:
         kargs = {"normalize": c["normalize"], "offset": c["offset"]}
@@ -216,6 +220,11 @@ def check_case(ctx, c):
             if not c["normalize"] and (a.shape != b.shape or not np.allclose(a, b, rtol=1e-5, atol=1e-7)):
                 viol("path-differs-from-token-vectorizer", "on path graphs the tree matrix differs from TokenCooccurrenceVectorizer", {"paths": paths, "tree": b.tolist(), "token": a.tolist()})
                 return
+    # the caller's adjacency matrices must come back untouched (they are re-used by the later fits above)
+    for (A, _), A0 in zip(X, X0):
+        if not np.array_equal(A.toarray(), A0):
+            viol("modifies-adjacency/%s" % fmt, "a fit changed the caller's adjacency matrix (%s input)" % fmt)
+            return
     if ok[0]:
         ctx.ok(_sig(c), np.count_nonzero(exp) >= 2 and max(_depth(p) for p, _ in trees) >= 2)
 
